@@ -48,7 +48,9 @@ RULE = (
     "dict, to_dataframe/from_dataframe, to_pytorch/from_pytorch, save/load csv and save/load json (minus the forms excluded "
     "for F10/F12). About a third of the cases with >= 2 ids are multi-step: the container is built incrementally, all forms "
     "are produced and judged after the first j individuals at 1-2 drawn points j, then individuals keep being added to the "
-    "same object and every form is judged again at the end (class roundtrip:interleaved-conversions). G: every (form x scalar type x name x id alphabet) single-parameter container and every ordered pair of "
+    "same object and every form is judged again at the end (class roundtrip:interleaved-conversions). About a quarter of the cases use build mode 'reused-dict': one caller-side dict "
+    "object is overwritten and passed to add_individual_parameters for every individual and overwritten once more after the "
+    "last addition (half of them without any ndarray value). G: every (form x scalar type x name x id alphabet) single-parameter container and every ordered pair of "
     "forms x scalar type x id alphabet. X: generated base container + one malformed addition of each kind. "
     "Non-trivial (R, G) = >= 2 ids, >= 1 scalar-valued and >= 1 length-n (n >= 2) parameter; distinct by the whole case. "
     "Non-trivial (X) = rejection on a non-empty base container; distinct by the whole case."
@@ -59,6 +61,7 @@ ASSUMPTIONS = [
     "Domain restrictions (observed, not judged): >= 1 individual (an empty container has no names/shapes; to_dataframe/to_pytorch raise AttributeError on it, save refuses it as documented); integers within +-2^53 (np.int32 within its range, and within +-2^24 where np.int32 and np.float32 scalars are mixed for one parameter across individuals: pandas infers a float32 column for that pair of types); finite values only; identifiers without control characters ('\\r' and NUL break the csv form) or lone surrogates; parameter names non-empty and != 'ID' (reserved by the table layout); lists are homogeneous in python type class only where the code checks it (a list whose *first* element is valid but a later one is a str is accepted by add_individual_parameters; not generated).",
     "Rejections: LeaspyIndividualParamsInputError and an unchanged container (_indices, _individual_parameters, _parameters_shape); afterwards the repaired addition under a fresh id must be accepted. Unsupported value types generated: str, None, bool, dict, nested list, 2-d ndarray (scalar position or every list element).",
     "A conversion must reflect the container as it is when the conversion is called: converting, adding further individuals to the same object and converting again is judged against the reference model of all individuals added so far.",
+    "The container owns its entries: overwriting the keys of the dict that was passed to add_individual_parameters afterwards must not change any form, and add_individual_parameters must leave the caller's dict (keys, value objects, contents) as it was. In-place mutation of a caller-side list value is not exercised (the current tree stores the caller's list objects).",
     "While EXCLUDE_F10 / EXCLUDE_F12 / EXCLUDE_CSV_FLOAT_PARSE are True the corresponding (input class x form) pairs are dropped / compared with CSV_RTOL by construction and counted under `excluded`.",
 ]
 REQUIRED_CLASSES = {  # absolute counts, about a third of what the quick tier produces
@@ -71,6 +74,7 @@ REQUIRED_CLASSES = {  # absolute counts, about a third of what the quick tier pr
     "conv:df": 5000, "conv:csv": 5000, "conv:csv-exact": 3000, "conv:json": 4000, "conv:torch": 6000,
     "reject:dup-id": 200, "reject:nonstr-id": 200, "reject:bad-type": 200, "reject:bad-shape": 200, "reject:non-dict": 200,
     "reject:from_pytorch-length": 200, "reject:first-addition": 80, "grid": 4000, "roundtrip:interleaved-conversions": 2000,
+    "build:reused-dict": 1500, "build:reused-dict:no-ndarray": 500,
 }
 
 ALL_CONVS = ["dict", "df", "torch", "csv", "json"]
@@ -202,24 +206,55 @@ def _workdir():
     return str(env.enter_scratch())
 
 
+def _same_value(a, b):
+    """type- and value-identity of two caller-side values (scalars, lists, ndarrays)."""
+    np = _np()
+    if isinstance(a, np.ndarray) or isinstance(b, np.ndarray):
+        return (isinstance(a, np.ndarray) and isinstance(b, np.ndarray) and a.dtype == b.dtype and a.shape == b.shape
+                and bool(np.array_equal(a, b)))
+    if isinstance(a, list) or isinstance(b, list):
+        return isinstance(a, list) and isinstance(b, list) and len(a) == len(b) and all(_same_value(x, y) for x, y in zip(a, b))
+    return type(a) is type(b) and a == b
+
+
+_SENTINEL = -987654.25
+
+
 def build_container(case, ip=None, model=None, start=0, stop=None):
-    """Add individuals start..stop-1 of the case to `ip` (a new container by default) and to the reference model."""
+    """Add individuals start..stop-1 of the case to `ip` (a new container by default) and to the reference model.
+
+    build mode "reused-dict": ONE dict object per container is overwritten and handed to add_individual_parameters for
+    every individual (the usual `work = {}; for idx in ids: work[...] = ...; ip.add_individual_parameters(idx, work)` loop),
+    and overwritten once more after the last addition. In every mode the caller's dict must come back unmodified
+    (problems are listed in model["_problems"]).
+    """
     from leaspy.io.outputs import IndividualParameters
 
     if ip is None:
         ip = IndividualParameters()
-        model = {"ids": [], "params": {}, "values": {}}
-    stop = len(case["ids"]) if stop is None else stop
+        model = {"ids": [], "params": {}, "values": {}, "_work": {}, "_problems": []}
+    model.setdefault("_work", {})
+    model.setdefault("_problems", [])
+    reused = case.get("build") == "reused-dict"
+    n = len(case["ids"])
+    stop = n if stop is None else stop
     for id_, ind in zip(case["ids"][start:stop], case["inds"][start:stop]):
-        d = {}
+        d = model["_work"] if reused else {}
         for e in ind:
             built = build_value(e)
             d[e["name"]] = built
             is_scalar, flat = model_of_value(e, built)
             model["params"].setdefault(e["name"], (is_scalar, len(flat)))
             model["values"][(id_, e["name"])] = flat
+        keys, objs, snap = list(d), dict(d), copy.deepcopy(d)
         ip.add_individual_parameters(id_, d)
         model["ids"].append(id_)
+        if list(d) != keys or any(d[k] is not objs[k] for k in keys) or not all(_same_value(d[k], snap[k]) for k in keys):
+            model["_problems"].append((id_, repr(d)[:400], repr(snap)[:400]))
+    if reused and stop == n and n:
+        # the caller goes on using its dict after the last addition
+        for name, (is_scalar, size) in model["params"].items():
+            model["_work"][name] = _SENTINEL if is_scalar else [_SENTINEL] * size
     return ip, model
 
 
@@ -410,6 +445,9 @@ def run_roundtrip(col: Collector, case, sub_check="roundtrip"):
         except Exception as e:
             col.fail(sub_check, "add:unexpected-exception:" + exc_bucket(e), case, observed=repr(e), expected="valid additions accepted")
             return a
+        for id_, now, before in model["_problems"]:
+            col.fail(sub_check, "add:caller-dict-modified", case, observed={id_: now}, expected=before)
+        model["_problems"] = []
         start = stop
         stage = "" if not stops else (":after-intermediate-conversions" if stop == n else ":intermediate")
         _judge_forms(ip, model, convs, csv_mode, wd, lambda conv, oracle, obs, exp: fail(conv, oracle + stage, obs, exp))
@@ -440,8 +478,13 @@ def classes_of(case, a):
     if any(abs(float(v)) > 3.4028235e38 for ind in case["inds"] for e in ind for _, v in e["elems"]):
         cl.append("value:beyond-f32")
     first = [e["name"] for e in case["inds"][0]]
-    if any([e["name"] for e in ind] != first for ind in case["inds"]):
+    reused = case.get("build") == "reused-dict"
+    if not reused and any([e["name"] for e in ind] != first for ind in case["inds"]):
         cl.append("key-order-permuted")
+    if reused:
+        cl.append("build:reused-dict")
+        if not any(f.startswith("ndarray") for f in forms):
+            cl.append("build:reused-dict:no-ndarray")
     if [j for j in (case.get("stops") or []) if 0 < j < len(case["ids"])]:
         cl.append("roundtrip:interleaved-conversions")
     for c in case.get("convs") or ALL_CONVS:
@@ -623,6 +666,18 @@ def container(draw, *, max_ids=10, min_ids=1, id_classes=None, allow_underscore=
 
 
 _D3 = st.integers(0, 2)
+_PY_TAG = {"f64": "float", "f32": "float", "i64": "int", "i32": "int"}
+
+
+def _dearray(case):
+    """Replace every ndarray value by the equivalent python scalar / list (what ndarray.tolist() gives)."""
+    for ind in case["inds"]:
+        for e in ind:
+            if e["form"] in ("ndarray", "ndarray0"):
+                tag = _PY_TAG[e.pop("dtype")]
+                e["elems"] = [[tag, v] for _, v in e["elems"]]
+                e["form"] = "list" if e["form"] == "ndarray" else "scalar"
+    return case
 
 
 @st.composite
@@ -632,6 +687,10 @@ def _roundtrip_case(draw, max_ids):
     if n >= 2 and draw(_D3) == 0:  # about a third: conversions interleaved with additions on the same object
         pts = _cached(("stops", n), lambda: st.lists(st.integers(1, n - 1), min_size=1, max_size=2, unique=True))
         case["stops"] = sorted(draw(pts))
+    if draw(_D4) == 0:  # about a quarter: one caller-side dict object reused for every individual
+        case["build"] = "reused-dict"
+        if draw(_BOOL):  # ... holding python scalars / lists only
+            _dearray(case)
     return plan(case)
 
 
@@ -692,8 +751,10 @@ def shard_grid(part: int, n_parts: int, shard: int = 0):
     for i, case in enumerate(grid_cases()):
         if i % n_parts != part:
             continue
-        if i % 3 == 0:
-            case["stops"] = [1, 2] if i % 2 else [2]
+        if n % 3 == 0:
+            case["stops"] = [1, 2] if n % 2 else [2]
+        if n % 4 == 1:
+            case["build"] = "reused-dict"
         case = plan(case)
         a = run_roundtrip(col, case)
         for x in case["excluded"]:
@@ -929,11 +990,18 @@ REPRO_STALE_TENSOR = {  # seeded regression (tensor cache not invalidated by a l
     "inds": [[{"name": "xi", "form": "list", "elems": [["float", 0.5]]}], [{"name": "xi", "form": "list", "elems": [["float", 1.5]]}]]}
 
 
+REPRO_ALIASED_DICT = {  # seeded regression (container keeps the caller's dict object when no value is an ndarray);
+    # bucket on that tree: "dict:values-differ"
+    "ids": ["a", "b"], "build": "reused-dict", "convs": ["dict"],
+    "inds": [[{"name": "xi", "form": "scalar", "elems": [["float", 0.5]]}], [{"name": "xi", "form": "scalar", "elems": [["float", 1.5]]}]]}
+
+
 def reproducers():
     """Run the dedicated reproducers; returns {name: [buckets]} (used by the author's own sanity runs, not by the tiers)."""
     out = {}
     for name, inp in (("F9", REPRO_F9), ("F10", REPRO_F10), ("F11", REPRO_F11), ("F12", REPRO_F12), ("csv-float", REPRO_CSV_FLOAT),
-                      ("stale-tensor", REPRO_STALE_TENSOR)):
+                      ("stale-tensor", REPRO_STALE_TENSOR),
+                      ("aliased-dict", REPRO_ALIASED_DICT)):
         out[name] = [f["bucket"] for f in replay("roundtrip", copy.deepcopy(inp))]
     return out
 
